@@ -257,12 +257,12 @@ def make_machine(plugin: str, pool: Pool, ctx: Ctx, stats: collections.Counter, 
             self.do_run(self.last_key, hs)
 
         @precondition(lambda self: self.last_key is not None)
-        @rule(kind=st.sampled_from(["owned-pattern", "overwrite", "truncate", "tool-config"]), tag=st.integers(0, 999))
+        @rule(kind=st.sampled_from(["owned-pattern", "overwrite", "truncate", "tool-config", "crlf", "cr", "bom", "trailing-space"]), tag=st.integers(0, 999))
         def plant_stale(self, kind, tag):
             self._plant(kind, tag)
 
         @precondition(lambda self: self.last_key is not None)
-        @rule(kind=st.sampled_from(["overwrite", "truncate"]), tag=st.integers(0, 999), hs=st.integers(0, 2**32 - 1))
+        @rule(kind=st.sampled_from(["overwrite", "truncate", "crlf", "cr", "bom", "trailing-space"]), tag=st.integers(0, 999), hs=st.integers(0, 2**32 - 1))
         def damage_and_rerun(self, kind, tag, hs):
             self._plant(kind, tag)
             self.do_run(self.last_key, hs)
@@ -292,6 +292,17 @@ def make_machine(plugin: str, pool: Pool, ctx: Ctx, stats: collections.Counter, 
             else:
                 target = os.path.join(self.out, "lsprotocol", "src", "lib.rs")
             os.makedirs(os.path.dirname(target), exist_ok=True)
+            if kind in ("crlf", "cr", "bom", "trailing-space"):
+                # a genuine file whose bytes differ only in ways a text-mode comparison does not see (a checkout with
+                # autocrlf, an editor that adds a BOM or trailing blanks)
+                if os.path.exists(target):
+                    with open(target, "rb") as f:
+                        data = f.read()
+                    data = {"crlf": data.replace(b"\r\n", b"\n").replace(b"\n", b"\r\n"), "cr": data.replace(b"\r\n", b"\n").replace(b"\n", b"\r"),
+                            "bom": b"\xef\xbb\xbf" + data, "trailing-space": data.replace(b"\n", b" \n", 3)}[kind]
+                    with open(target, "wb") as f:
+                        f.write(data)
+                return
             if kind == "truncate" and os.path.exists(target):
                 with open(target, "r+b") as f:
                     f.truncate(10)
@@ -363,6 +374,9 @@ def _work(args) -> dict:
                 mach.do_run(a, 0)
                 for kind, tag in (("truncate", 3), ("overwrite", 7), ("owned-pattern", 11)):
                     mach._plant(kind, tag)
+                    mach.do_run(a, 1)
+                for kind in ("crlf", "cr", "bom", "trailing-space"):   # genuine files re-encoded in place
+                    mach._plant(kind, 13)
                     mach.do_run(a, 1)
                 for tag in range(len(TOOL_CONFIGS) * 3):   # configuration files of formatters / build tools, at every level
                     mach._plant("tool-config", tag)
